@@ -19,6 +19,9 @@
 #ifdef HAVE_Box
 #include "wrapBox.h"
 #endif
+#ifdef HAVE_Bag
+#include "wrapBag.h"
+#endif
 #ifdef HAVE_Holder
 #include "wrapHolder_int.h"
 #include "wrapHolder_double.h"
@@ -42,6 +45,9 @@ static SIM_Item h[NH];
 #endif
 #ifdef HAVE_Box
 static SIM_Box bx[NH];
+#endif
+#ifdef HAVE_Bag
+static SIM_Bag bg[NH];
 #endif
 #ifdef HAVE_Holder
 static SIM_Holder_int hi[NH];
@@ -166,6 +172,14 @@ static void do_op(const char *op, int a, int b, const char *text)
     else if (!strcmp(op, "pt_sum")) { SIM_pt p; p.x = a; p.y = a + 0.5; sim_phase(1); int r = SIM_pt_sum(&p); sim_phase(0); res_int(r); }
     else if (!strcmp(op, "pt_out")) { SIM_pt p; p.x = -1; p.y = -1; sim_phase(1); SIM_pt_out(&p, a); sim_phase(0); res_arr(p.x, (long)(p.y * 2)); }
     else if (!strcmp(op, "pt_scale")) { SIM_pt p; p.x = a; p.y = a + 0.5; sim_phase(1); SIM_pt_scale(&p, b); sim_phase(0); res_arr(p.x, (long)(p.y * 2)); }
+#endif
+#ifndef SIMC
+    else if (!strcmp(op, "bag_new")) {
+        int *v = (int *)exact(sizeof(int) * b); for (int i = 0; i < b; i++) v[i] = i + 1;
+        sim_phase(1); SIM_Bag_ctor(v, b, &bg[a]); sim_phase(0); res_none(); free(v);
+    }
+    else if (!strcmp(op, "bag_total")) { sim_phase(1); int r = SIM_Bag_total(&bg[a]); sim_phase(0); res_int(r); }
+    else if (!strcmp(op, "bag_delete")) { sim_phase(1); SIM_Bag_delete(&bg[a]); sim_phase(0); res_none(); }
 #endif
 #ifndef SIMC
     else if (!strcmp(op, "make_box")) { sim_phase(1); SIM_make_box(b, &bx[a]); sim_phase(0); res_none(); }
